@@ -108,4 +108,15 @@ def context_construction(chk, prefix="C08"):
                     cc = s2.get(v2)
                     g2 = z3.And(g2, ops.values_equal(s2, cc["_parent_id"], pid), z3.BoolVal(cc["state"] == state and cc["_step_counter"] != c["_step_counter"]), ops.values_equal(s2, s2.get(cc["_step_counter"])["_counter"], 0))
                 chk.prove(f"{prefix}.ctx.child_context", s2.pc, g2, desc="create_child_context(p): parent id p, the same execution state, a fresh counter at 0 (ids inside a context depend only on that context's own calls)")
+                if ok2:
+                    # a branch that is resumed within the same invocation asks for its context AGAIN: it must get a new one whose counter restarts at 0
+                    for k3, v3, s3 in eng.run(dc.find_method("create_child_context"), [v, pid], st=s2):
+                        ok3 = k3 == "val" and isinstance(v3, Ref)
+                        g3 = z3.BoolVal(ok3)
+                        if ok3:
+                            c3 = s3.get(v3)
+                            g3 = z3.And(g3, z3.BoolVal(v3.oid != v2.oid and c3["_step_counter"] != cc["_step_counter"] and c3["_step_counter"] != c["_step_counter"]),
+                                        ops.values_equal(s3, c3["_parent_id"], pid), ops.values_equal(s3, s3.get(c3["_step_counter"])["_counter"], 0))
+                        chk.prove(f"{prefix}.ctx.child_context_fresh_each_call", s3.pc, g3,
+                                  desc="a second create_child_context(p) with the same p returns a NEW context object with its own counter at 0 (no caching: a resumed branch re-issues its operations under the same ids)")
         chk.prove(f"{prefix}.ctx.root_context", s.pc, goal, desc="the root context has no parent id and a fresh counter at 0")
